@@ -65,3 +65,24 @@ package convert
 //@        && fields[k].Column == g.Fields[k].Column && fields[k].Value == g.Fields[k].Value
 //@     invariant GroupsDone(pbr, result)
 //@     invariant forall j idx(pbr.Groups) :: arr(pbr.Groups[j].Fields) != arr(fields)
+
+//@ func [C13,C14] ToResult(pr) (r)
+//@   requires pr != nil && (forall j idx(pr.Groups) :: pr.Groups[j] != nil && (forall k idx(pr.Groups[j].Fields) :: pr.Groups[j].Fields[k] != nil))
+//@   ensures [C13] r != nil && fresh(r) && r.Count == pr.TotalCount && len(r.Groups) == len(pr.Groups)
+//@   ensures [C13] groups: forall j idx(r.Groups) :: r.Groups[j].Count == pr.Groups[j].Count && len(r.Groups[j].Fields) == len(pr.Groups[j].Fields)
+//@        && (forall k idx(r.Groups[j].Fields) :: r.Groups[j].Fields[k].Column == pr.Groups[j].Fields[k].Column && r.Groups[j].Fields[k].Value == pr.Groups[j].Fields[k].Value)
+//@   loop 1
+//@     invariant r != nil && !(r in old($alloc)) && len(r.Groups) == $i && 0 <= $i && $i <= len(pr.Groups) && r.Count == pr.TotalCount
+//@     invariant arr(r.Groups) == nil || (!(arr(r.Groups) in old($alloc)) && allocated(arr(r.Groups)))
+//@     invariant ResultGroupsDone(r, pr)
+//@   loop 2
+//@     invariant len(gg.Fields) == $i && 0 <= $i && $i <= len(g.Fields) && gg.Count == g.Count
+//@     invariant arr(gg.Fields) == nil || (!(arr(gg.Fields) in old($alloc)) && allocated(arr(gg.Fields)))
+//@     invariant forall k idx(gg.Fields) :: gg.Fields[k].Column == g.Fields[k].Column && gg.Fields[k].Value == g.Fields[k].Value
+//@     invariant ResultGroupsDone(r, pr)
+//@     invariant forall j idx(r.Groups) :: arr(r.Groups[j].Fields) == nil || arr(r.Groups[j].Fields) != arr(gg.Fields)
+
+//@ pred ResultGroupsDone(r *updog.Result, pr *updogv1.Result) :=
+//@   (forall j idx(r.Groups) :: r.Groups[j].Count == pr.Groups[j].Count && len(r.Groups[j].Fields) == len(pr.Groups[j].Fields)
+//@        && (arr(r.Groups[j].Fields) == nil || (!(arr(r.Groups[j].Fields) in old($alloc)) && allocated(arr(r.Groups[j].Fields))))
+//@        && (forall k idx(r.Groups[j].Fields) :: r.Groups[j].Fields[k].Column == pr.Groups[j].Fields[k].Column && r.Groups[j].Fields[k].Value == pr.Groups[j].Fields[k].Value))
